@@ -11,7 +11,7 @@
 From Coq Require Import List Arith Bool ZArith.
 From GoPdf.Base Require Import Res.
 From GoPdf.C17 Require Import KTDepths.
-From GoPdf.C16 Require Import PageTree PageTreeInst PageTreePre PTStruct PTMain PTReaders PTFuel PTFuel2 PTPageNum PTNoPanic PTMerge PTSafe.
+From GoPdf.C16 Require Import PageTree PageTreeInst PageTreePre PTStruct PTMain PTReaders PTFuel PTFuel2 PTPageNum PTNoPanic PTMerge PTSafe PTPn3.
 Import ListNotations.
 
 (* the leaves of the written root, left to right, are the pages in document order; an operation
@@ -158,17 +158,22 @@ Theorem no_fuel_exhaustion : forall D old choose choose_rot, 2 <= D ->
 Proof. exact run_nofuel. Qed.
 Print Assumptions no_fuel_exhaustion.
 
-(* page-number callbacks: every NextPageNumber callback is called once, with the final position
-   of the next page added to its range, or -1: the log of the model is the specification's.
-   The full statement (any nesting of ranges, where page numbers become known only when earlier
-   ranges close) is not proved; the executable futureInt model, [spec_log], the Go statement of it
-   and the real callbacks are compared on every program of the harness. *)
-Definition page_numbers_full : Prop := forall D old choose choose_rot, 2 <= D ->
+(* page-number callbacks, any nesting of ranges: a callback registered with NextPageNumber is
+   called with the position, in the finished document, of the next page added to its range - or
+   with -1 when the range is closed first (or was closed already).  The log of the model's futureInt
+   heap and the specification [spec_log] have the same entries.  The proof reads every futureInt as
+   a value V that is fixed once the final sizes rho of the open ranges are fixed: Update / Inc /
+   WhenAvailable keep "value so far + what is still owed = V" (PTFut), the cell of every open range
+   stands for the position of its next page (PTPn2), for EVERY rho; when the root is closed nothing
+   is owed and every stored callback has been called (PTPn3). *)
+Theorem page_numbers_full : forall D old choose choose_rot, 2 <= D ->
   forall prog out, NoDup (append_ids prog) -> run D old choose choose_rot prog = Ok out ->
   forall k v, In (k, v) (o_log out) <-> In (k, v) (spec_log prog).
+Proof. exact page_numbers_nested. Qed.
+Print Assumptions page_numbers_full.
 
-(* proved: programs that use the root range only (no NewRange; NextPageNumber, appends and
-   operations on writers that do not exist in any order) - the log is exactly the specification's *)
+(* programs that use the root range only (no NewRange; NextPageNumber, appends and operations on
+   writers that do not exist in any order): the log is the specification's, in the same order *)
 Theorem page_numbers_partial : forall D old choose choose_rot prog out,
   Forall root_only prog -> NoDup (append_ids prog) ->
   run D old choose choose_rot prog = Ok out -> o_log out = spec_log prog.
